@@ -1547,6 +1547,31 @@ def rule_to_sparse(repo, col):
         for c in called.get(conv, []):
             shp = dotted(kwarg(c, 'shape') or (c.args[2] if len(c.args) > 2
                                                else ast.Constant(None)))
+            # a dense nested list carries its own shape (data taken from a
+            # `coo_matrix(values)` of the input): there the id-derived shape
+            # must NOT replace it, or the size checks can never fire
+            a0 = c.args[0] if c.args else None
+            dense_src = None
+            if isinstance(a0, ast.Tuple) and a0.elts and isinstance(
+                    a0.elts[0], ast.Attribute) and isinstance(
+                    a0.elts[0].value, ast.Name):
+                nm = a0.elts[0].value.id
+                for v, _ in local_assignments(f).get(nm, []):
+                    if isinstance(v, ast.Call) and call_name(v) in (
+                            'coo_matrix', 'csr_matrix', 'np.asarray',
+                            'np.array', 'asarray') and v.args and \
+                            dotted(v.args[0]) == 'values':
+                        dense_src = nm
+            if dense_src is not None:
+                col.check(shp == '%s.shape' % dense_src, rule, TABLE,
+                          'Table._to_sparse', 'dense-own-shape:%s' % conv,
+                          c, 'the dense input keeps its own shape',
+                          'a dense nested list is sized by `%s` instead of '
+                          'by the data: too many ids are accepted (the '
+                          'table is padded with zero vectors) and too few '
+                          'raise a scipy error instead of the table error'
+                          % shp)
+                continue
             col.check(shp == 'shape', rule, TABLE, 'Table._to_sparse',
                       'shape:%s' % conv, c, 'shape forwarded',
                       'the declared shape is not forwarded to %s: the '
